@@ -566,6 +566,15 @@ def run(seed, tier):
     return r
 
 
+def entry(seed, tier, **_kw):
+    """entry point for tools/check.py (props.py: corr=[("harness.equals", "entry", {})])"""
+    r = run(seed, tier)
+    keep = ("ok", "cases", "distinct_nontrivial", "samples", "pairs", "skipped_band", "by_level", "outcomes", "magnitudes", "wall_s")
+    out = {k: r[k] for k in keep}
+    out["disagreements"] = [{k: (v[:400] if isinstance(v, str) else v) for k, v in d.items()} for d in r["disagreements"][:3]]
+    return out
+
+
 if __name__ == "__main__":
     import json
 
